@@ -28,7 +28,7 @@ class Result:
         self.outcomes: set[int] = set()  # hashes of distinct canonical (case, outcome)
         self.nontrivial: set[int] = set()  # hashes of distinct non-trivial cases
         self.states: set[int] = set()  # hashes of distinct explored states
-        self.violations: list[dict] = []
+        self._viol: dict[str, list[dict]] = {}
         self.cov: dict[str, int] = {}
         self.samples: list = []
         self.caps: list[str] = []
@@ -37,11 +37,15 @@ class Result:
     def hit(self, key: str, n: int = 1):
         self.cov[key] = self.cov.get(key, 0) + n
 
+    @property
+    def violations(self) -> list[dict]:
+        return [v for vs in self._viol.values() for v in vs]
+
     def violation(self, sig: str, what: str, case):
-        # keep at most 3 witnesses per signature per unit
-        n = sum(1 for v in self.violations if v["sig"] == sig)
-        if n < 3:
-            self.violations.append({"sig": sig, "what": what, "case": case})
+        # keep at most 3 witnesses per signature
+        vs = self._viol.setdefault(sig, [])
+        if len(vs) < 3:
+            vs.append({"sig": sig, "what": what, "case": case})
         self.hit("viol:" + sig)
 
     def merge(self, o: "Result"):
@@ -50,10 +54,9 @@ class Result:
         self.outcomes |= o.outcomes
         self.nontrivial |= o.nontrivial
         self.states |= o.states
-        for v in o.violations:
-            n = sum(1 for w in self.violations if w["sig"] == v["sig"])
-            if n < 3:
-                self.violations.append(v)
+        for sig, ovs in o._viol.items():
+            vs = self._viol.setdefault(sig, [])
+            vs.extend(ovs[: 3 - len(vs)])
         for k, n in o.cov.items():
             self.cov[k] = self.cov.get(k, 0) + n
         if len(self.samples) < 12:
